@@ -61,6 +61,8 @@ def present_lts(c, rng):
     rng.shuffle(edges)
     d["edges"] = edges
     d["k"] = rng.choice([c["n"], c["n"], c["n"], max(1, c["n"] - 1), 1])
+    if rng.random() < 0.15:
+        d["twice"] = True                               # the same question asked twice on the same object
     if "part" in d and all(len(b) == c["n"] for b in d["part"]) and rng.random() < 0.5:
         # one block related to itself = "no partition given": use the overload without partition
         d.pop("part")
